@@ -1,4 +1,4 @@
-import UralModel.Model.Quote
+import UralModel.Lemmas.Quote
 import UralModel.Gen.QuoteTables
 /-!
 # C14 — Safe quoting/unquoting preserves decoded content and delimiters
@@ -43,5 +43,154 @@ theorem tables_patterns :
     [Gen.Quote.quotedSplitPatternFlags, Gen.Quote.quotedPatternFlags,
       Gen.Quote.lowercaseQuotedPatternFlags, Gen.Quote.asciiRunPatternFlags,
       Gen.Quote.c1ControlPatternFlags] = [32, 32, 32, 32, 32] := by decide
+
+/-! ## scanning
+
+`tokens` is the scan shared by all functions of `quote.py`; `render` writes tokens back. -/
+
+/-- writing the tokens of a string gives the string back: nothing is lost by the scan -/
+theorem render_tokens (s : Str) : render (tokens s) = s := Quote.render_tokens s
+
+/-- a token list without stray `%` whose escapes have hex digits and whose raw characters
+are not `%` re-scans to itself: in such an output no text can combine into a new escape and
+no escape can fall apart -/
+theorem tokens_render_canonical (ts : List Tok) (h : ∀ t ∈ ts, CanonTok t) :
+    tokens (render ts) = ts := tokens_render_of_canon ts h
+
+/-! ## safely_quote -/
+
+/-- **token-level characterisation**: the scan of `safely_quote s` is, token for token, the
+scan of `s` with every escape kept as written, every unreserved character (and `/`) kept, a
+stray `%` turned into `%25` and every other character replaced by the upper-case escapes of
+its UTF-8 bytes -/
+theorem quote_tokens (s : Str) : tokens (safelyQuote s) = quoteToks (tokens s) :=
+  tokens_render_of_canon _ (canon_quoteToks (wf_tokens s))
+
+/-- the result is pure ASCII -/
+theorem quote_ascii (s : Str) : ∀ ch ∈ safelyQuote s, ch.toNat < 0x80 := by
+  intro ch hch
+  simp only [safelyQuote, render, quoteToks, List.mem_flatMap] at hch
+  obtain ⟨t', ⟨t, ht, ht'⟩, hch⟩ := hch
+  apply ascii_render_quoteTok (wf_tokens s t ht) ch
+  simp only [render, List.mem_flatMap]
+  exact ⟨t', ht', hch⟩
+
+/-- decoding the output gives the same bytes as decoding the input -/
+theorem quote_pct (s : Str) : pctStr (safelyQuote s) = pctStr s := by
+  simp only [pctStr, quote_tokens, pct_quoteToks]
+
+/-- every pre-existing escape is kept as is, where it was -/
+theorem quote_keeps_escapes (a b : List Tok) (h1 h2 : Char) :
+    quoteToks (a ++ .esc h1 h2 :: b) = quoteToks a ++ .esc h1 h2 :: quoteToks b := by
+  simp [quoteToks, quoteTok]
+
+/-- quoting twice is quoting once -/
+theorem quote_idempotent (s : Str) : safelyQuote (safelyQuote s) = safelyQuote s := by
+  have h := quote_tokens s
+  unfold safelyQuote at h ⊢
+  rw [h, quoteToks_idem]
+
+/-! ## safely_unquote_* (any unsafe set `U` containing `%`; the four regenerated sets do:
+`tables_percent_unsafe`) -/
+
+/-- **token-level characterisation**: the scan of the output is exactly the token list the
+model assembles, every token of which is (`OutTok`) a raw non-space character of the input, a
+well-formed escape, a decoded printable ASCII character outside `U`, or a decoded non-ASCII
+character that is not a C1 control -/
+theorem unquote_tokens (U : List UInt8) (hU : (0x25 : UInt8) ∈ U) (s : Str) :
+    tokens (safelyUnquote U s) = unquoteToks U (tokens s) ∧
+    ∀ t ∈ unquoteToks U (tokens s), OutTok U (tokens s) t := by
+  have hout := outTok_unquoteToks U (tokens s) (wf_tokens s)
+  exact ⟨tokens_render_of_canon _ (fun t ht => canon_of_outTok hU (wf_tokens s) (hout t ht)), hout⟩
+
+/-- the output decodes to the same bytes as the input: nothing is lost, nothing is decoded
+twice, undecodable bytes stay escaped -/
+theorem unquote_pct (U : List UInt8) (hU : (0x25 : UInt8) ∈ U) (s : Str) :
+    pctStr (safelyUnquote U s) = pctStr s := by
+  simp only [pctStr, (unquote_tokens U hU s).1, pct_unquoteToks]
+
+/-- the output contains no raw space -/
+theorem unquote_no_space (U : List UInt8) (s : Str) : ' ' ∉ safelyUnquote U s := by
+  intro hmem
+  simp only [safelyUnquote, render, List.mem_flatMap] at hmem
+  obtain ⟨t, ht, hch⟩ := hmem
+  have := outTok_unquoteToks U (tokens s) (wf_tokens s) t ht
+  cases this with
+  | input c _ hc => simp [renderTok] at hch; exact hc hch.symm
+  | esc h1 h2 a b =>
+    simp only [renderTok, List.mem_cons, List.not_mem_nil, or_false] at hch
+    rcases hch with h | h | h
+    · revert h; decide
+    · exact (isHexDigit_props a).2.2.1 h.symm
+    · exact (isHexDigit_props b).2.2.1 h.symm
+  | ascii b hlt hk h20 =>
+    simp only [renderTok, List.mem_singleton] at hch
+    apply h20
+    have : (Char.ofNat b.toNat).toNat = 32 := by rw [← hch]; rfl
+    rw [toNat_ofNat_of_lt (by omega)] at this
+    exact UInt8.toNat_inj.1 (by simpa using this)
+  | high c hc =>
+    simp only [renderTok, List.mem_singleton] at hch
+    subst hch
+    revert hc; decide
+
+/-- for every ASCII delimiter `d` of the unsafe set other than the space, the raw
+occurrences of `d` are the same in the output and in the input: an escaped delimiter is
+never unescaped, a raw one never escaped -/
+theorem unquote_delimiters (U : List UInt8) (hU : (0x25 : UInt8) ∈ U) (d : Char)
+    (hd : d.toNat < 0x80) (hsp : d ≠ ' ') (hdU : UInt8.ofNat d.toNat ∈ U) (s : Str) :
+    (tokens (safelyUnquote U s)).count (.raw d) = (tokens s).count (.raw d) := by
+  rw [(unquote_tokens U hU s).1, count_unquoteToks U d hd hsp hdU]
+
+/-- C0 / DEL / C1 control characters -/
+def isControl (c : Char) : Prop := c.toNat < 0x20 ∨ (0x7f ≤ c.toNat ∧ c.toNat ≤ 0x9f)
+
+/-- a control character of the output was already a (raw) character of the input -/
+theorem unquote_no_new_control (U : List UInt8) (s : Str) :
+    ∀ ch ∈ safelyUnquote U s, isControl ch → ch ∈ s := by
+  intro ch hmem hctl
+  simp only [safelyUnquote, render, List.mem_flatMap] at hmem
+  obtain ⟨t, ht, hch⟩ := hmem
+  have := outTok_unquoteToks U (tokens s) (wf_tokens s) t ht
+  cases this with
+  | input c hc _ =>
+    simp only [renderTok, List.mem_singleton] at hch
+    subst hch
+    rw [← Quote.render_tokens s]
+    simp only [render, List.mem_flatMap]
+    exact ⟨_, hc, by simp [renderTok]⟩
+  | esc h1 h2 a b =>
+    exfalso
+    simp only [renderTok, List.mem_cons, List.not_mem_nil, or_false] at hch
+    unfold isControl at hctl
+    rcases hch with rfl | rfl | rfl
+    · revert hctl; decide
+    · have := isHexDigit_props a; omega
+    · have := isHexDigit_props b; omega
+  | ascii b hlt hk h20 =>
+    exfalso
+    simp only [renderTok, List.mem_singleton] at hch
+    subst hch
+    unfold isControl at hctl
+    rw [toNat_ofNat_of_lt (by omega)] at hctl
+    simp only [keepEsc, Bool.or_eq_false_iff, decide_eq_false_iff_not, UInt8.not_lt,
+      beq_eq_false_iff_ne, ne_eq] at hk
+    have h1 : 0x20 ≤ b.toNat := by simpa using UInt8.le_iff_toNat_le.1 hk.1.1
+    have h2 : b.toNat ≠ 0x7f := fun e => hk.1.2 (UInt8.toNat_inj.1 (by simpa using e))
+    omega
+  | high c hc =>
+    exfalso
+    simp only [renderTok, List.mem_singleton] at hch
+    subst hch
+    unfold isControl at hctl
+    omega
+
+/-! ## non-vacuity: the four regenerated configurations on a string with every kind of token -/
+
+example :
+    safelyUnquote Gen.Quote.unsafeForPath "/a%E9b%C3%A9 %41%2F%zz%C2%85%7F%2541".toList
+      = "/a%E9bé%20A%2F%25zz%C2%85%7F%2541".toList ∧
+    safelyQuote "té%20 %zz/".toList = "t%C3%A9%20%20%25zz/".toList := by
+  decide +kernel
 
 end Ural.Props.C14
